@@ -80,7 +80,12 @@ CB = [("", ""), ("circuit_breaker:\n  enabled: true\n  max_requests: 5\n  interv
       ("circuit_breaker:\n  enabled: false\n  max_requests: 4294967297\n", "cbm=4294967297")]
 METRICS = [("", ""), ("metrics:\n  enabled: true\n  port: 9090\n  path: /metrics\n", "met=1;mp=9090;mpa=/metrics"),
            ("metrics:\n  enabled: true\n  port: 9090\n", "met=1;mp=9090"), ("metrics:\n  enabled: true\n  port: 70000\n  path: /m\n", "met=1;mp=70000;mpa=/m"),
-           ("metrics:\n  enabled: false\n  port: -1\n", "mp=-1")]
+           ("metrics:\n  enabled: false\n  port: -1\n", "mp=-1"),
+           # the path becomes a ServeMux pattern next to the metrics server's own /health
+           ("metrics:\n  enabled: true\n  port: 9090\n  path: /health\n", "met=1;mp=9090;mpa=/health"),
+           ("metrics:\n  enabled: true\n  port: 9090\n  path: metrics\n", "met=1;mp=9090;mpa=metrics"),
+           ("metrics:\n  enabled: true\n  port: 9090\n  path: /healthz\n", "met=1;mp=9090;mpa=/healthz"),
+           ("metrics:\n  enabled: false\n  path: /health\n", "mpa=/health")]
 ADMIN = [("", ""), ("admin_api:\n  enabled: true\n  port: 9091\n  auth_token: change-me\n", "adm=1;admp=9091"),
          ("admin_api:\n  enabled: true\n  port: 0\n", "adm=1;admp=0"), ("admin_api:\n  enabled: true\n", "adm=1")]
 LOGGING = [("", ""), ("logging:\n  level: info\n  format: text\n", "ll=info;lf=text"), ("logging:\n  level: debug\n  format: json\n", "ll=debug;lf=json"),
@@ -173,6 +178,40 @@ def oracle(ep, outs):
     return fails
 
 
+MAXS = (2**63 - 1) // 10**9
+
+
+def wireall_episode(rng):
+    small = lambda lo: rng.choice([lo, 1, 2, 3, 5, 30, 300])
+    big = lambda lo: rng.choice([lo, 1, 7, 3600, 86400, MAXS, MAXS + 1])
+    pick = lambda lo: big(lo) if rng.random() < 0.15 else small(lo)
+    at = pick(1)
+    ai = at + rng.choice([1, 1, 5, 0]) if rng.random() < 0.9 else pick(1)
+    vals = [ai, at, pick(1), pick(1), pick(1), pick(1), pick(0), pick(0), pick(0), pick(0), pick(0)]
+    return ["lb wireall " + " ".join(str(v) for v in vals)]
+
+
+def wireall_oracle(ep, outs):
+    """independent of the model: an accepted configuration runs every feature with exactly the
+    configured numbers (documented defaults where 0 means "default"); seconds become nanoseconds"""
+    v = [int(x) for x in ep[0].split()[2:]]
+    ai, at, pt, pto, rlm, rlr, wsi, wsa, wst, tbr, tbi = v
+    o = outs[0] if outs else ""
+    documented = ai >= 1 and at >= 1 and at < ai and pt >= 1 and pto >= 1 and rlm >= 1 and rlr >= 1 and min(wsi, wsa, wst, tbr, tbi) >= 0 \
+        and not (wsa > 0 and wsi > wsa) and max(ai, at, pto, rlr, wst, tbr, tbi) <= MAXS
+    if o == "rejected":
+        return [] if not documented else ["a configuration meeting every documented constraint is rejected: %s" % ep[0]]
+    if not o.startswith("eff "):
+        return ["unexpected answer %r to %s" % (o, ep[0])]
+    e = dict(t.split("=") for t in o.split()[1:])
+    S = 10**9
+    want = {"ai": ai * S, "at": at * S, "pt": pt, "pto": pto * S, "rlm": rlm, "rlr": rlr * S, "wsi": wsi or 10, "wsa": wsa or 100,
+            "wst": (wst or 300) * S, "tbr": (tbr or 30) * S, "tbi": (tbi or 90) * S}
+    names = {"ai": "active interval", "at": "active timeout", "pt": "passive threshold", "pto": "passive unhealthy timeout", "rlm": "rate limit max_tokens",
+             "rlr": "rate limit refill", "wsi": "pool max_idle", "wsa": "pool max_active", "wst": "pool idle timeout", "tbr": "backend read timeout", "tbi": "backend idle timeout"}
+    return ["accepted configuration runs with %s = %s instead of %d (%s)" % (names[k], e.get(k), w, ep[0]) for k, w in want.items() if str(w) != e.get(k)]
+
+
 def check(ctx):
     ctx.assumptions += [
         "gopkg.in/yaml.v3 decoding is trusted; the model validates the decoded structure (fields given to the model alongside the YAML text)",
@@ -187,6 +226,45 @@ def check(ctx):
     docs = documented_files(ctx)
     episodes = docs + [gen_case(ctx, i, ctx.rng) for i in range(n)]
     bad = d.check(episodes, oracle=oracle, label="config")
+    # every number of the configuration, through validation and NewLoadBalancer, read back from the
+    # objects the balancer runs with
+    from . import c02
+    dw = C.Differential(ctx, c02.build(ctx))
+    wired = [wireall_episode(ctx.rng) for _ in range(1500 if ctx.thorough() else 200)]
+    dw.check(wired, oracle=wireall_oracle, label="wiring")
+    ctx.cov["configurations_read_back_from_the_running_balancer"] = len(wired)
+    srv_eps = [["srvwire %d %d %d" % tuple(ctx.rng.choice([0, 1, 15, 60, 3600, MAXS, MAXS + 1, -1]) if ctx.rng.random() < 0.5 else ctx.rng.choice([0, 5, 15, 30])
+                for _ in range(3))] for _ in range(60)]
+
+    def srv_oracle(ep, outs):
+        r, w, i = (int(x) for x in ep[0].split()[1:])
+        o = outs[0] if outs else ""
+        ok_cfg = min(r, w, i) >= 0 and max(r, w, i) <= MAXS
+        if o == "rejected":
+            return [] if not ok_cfg else ["documented server timeouts rejected: %s" % ep[0]]
+        want = "eff r=%d w=%d i=%d" % ((r or 15) * 10**9, (w or 15) * 10**9, (i or 60) * 10**9)
+        return [] if o == want else ["front server runs with %s, configured %s" % (o, want)]
+    d.check(srv_eps, oracle=srv_oracle, label="server-wiring")
+    from . import c10
+    d.check([["startup debug"], ["startup info"], ["startup -"], ["startup warn"], ["startup error"]], oracle=c10.startup_oracle, label="startup")
+    # string values survive loading byte for byte (secrets and addresses with $, %, #, quotes, unicode)
+    vals = []
+    for i, (tok, addr, hdr, key) in enumerate([("Adm1n$2024", "http://localhost:8081", "X-Req", "$2y$10$abcdefgh"), ("$uperS3cret", "http://h:1/p?x=$y", "X-${NAME}", "k$1"),
+                                               ("p%41ss#x", "http://[::1]:9/a%20b", "x-my-req", "pl ain"), ("tök'en\"", "http://u:p@host:8/", "X-Req-Id", "${HOME}")]):
+        path = ctx.path("val_%d.yaml" % i)
+        q = lambda s: "'" + s.replace("'", "''") + "'"
+        open(path, "w", encoding="utf-8").write(
+            "server:\n  port: 8080\nbackends:\n  - name: b0\n    address: %s\nadmin_api:\n  enabled: true\n  port: 9091\n  auth_token: %s\n"
+            "logging:\n  request_id:\n    enabled: true\n    header: %s\nplugins:\n  enabled: true\n  chain:\n    - name: custom-auth\n      config:\n        apiKey: %s\n"
+            % (q(addr), q(tok), q(hdr), q(key)))
+        hx = lambda s: s.encode("utf-8").hex()
+        vals.append(["cfgval %s tok=%s;addr=%s;hdr=%s;key=%s" % (path, hx(tok), hx(addr), hx(hdr), hx(key))])
+
+    def val_oracle(ep, outs):
+        want = " ".join(ep[0].split(" ", 2)[2].split(";"))
+        o = outs[0] if outs else ""
+        return [] if o == want else ["configuration values are not loaded as written: file has %s, loaded %s" % (want, o)]
+    d.check(vals, oracle=val_oracle, label="values")
     verdicts = {}
     nontriv = set()
     if bad == 0:
